@@ -42,8 +42,20 @@ def random_gate(rng, avail, types=None, allow_const_ops=True):
     return t, [rng.choice(avail) for _ in range(k)]
 
 
+# labels that are legal for the Circuit API but unusual: empty, with the block separator, mutual prefixes,
+# case pairs (never used where bench identifiers are required: callers pass hostile=False there)
+HOSTILE_LABELS = ['', '@', 'a@b', 'N1@x1', 'x', 'x1', 'X1', 'x10', 'not_x1', 'big_or', '0', '1']
+
+
+HOSTILE_P = 0.0     # set by the property modules whose code under test accepts arbitrary labels
+
+
 def fresh_label(rng, used, prefix=None):
     pools = ['x', 'g', 'n', 'w', 'in_', 'out', 'z_', 'T']
+    if HOSTILE_P and prefix is None and rng.random() < HOSTILE_P:
+        cands = [l for l in HOSTILE_LABELS if l not in used]
+        if cands:
+            return rng.choice(cands)
     while True:
         l = (prefix if prefix is not None else rng.choice(pools)) + str(rng.randint(0, 99))
         if l not in used:
